@@ -255,6 +255,7 @@ def facts() -> typing.Dict[str, bool]:
     _SEQS['setzeros'] = seqs.setzeros_accesses(csup)
     cser = strip_comments(gen.read_repo('src/nunavut/lang/cpp/templates/serialization.j2'))
     cpp_ev, f['cpp_ser_stores_checked'] = seqs.cpp_ser_facts(macro, cser, csup)
+    f['cpp_getters_bytewise'] = seqs.cpp_getters_bytewise(csup)
     _SEQS.update({'vla': seqs.coq_vla(seqs.vla_paths(macro(cdes, '_deserialize_variable_length_array').split('%}', 1)[1])), 'union': seqs.union_seqs(uni),
                   'cev': dict(seqs.c_event_seqs(macro, ser, des), **cpp_ev)})
     return f
@@ -264,7 +265,7 @@ _SEQS: typing.Dict[str, typing.Any] = {}
 STATE = ['c_len_check_is_dsdl_capacity', 'c_len_check_storage', 'c_ser_guarded', 'c_des_ptr_clamped', 'cpp_subspan_clamped']   # either value is a recognised shape
 ORDER = ['c_ser_up_front_first', 'c_ser_check_guard_is_override', 'c_ser_tag_chain_closed', 'c_ser_len_check_first', 'c_des_len_check_first',
          'c_len_check_is_dsdl_capacity', 'c_len_check_storage', 'c_ser_guarded', 'c_des_ptr_clamped', 'c_des_remaining_live', 'c_des_header_check_first', 'c_des_tag_chain_closed', 'c_des_bool_guarded', 'c_des_byte_guarded',
-         'c_getbits_zero_from_floor', 'cpp_ser_stores_checked', 'cpp_subspan_clamped', 'cpp_vla_clear_first', 'union_destroy_unfiltered', 'union_emplace_destroy_first']
+         'c_getbits_zero_from_floor', 'cpp_ser_stores_checked', 'cpp_getters_bytewise', 'cpp_subspan_clamped', 'cpp_vla_clear_first', 'union_destroy_unfiltered', 'union_emplace_destroy_first']
 
 
 WIDTHS = {'uint8_t': 8, 'uint16_t': 16, 'uint32_t': 32, 'uint64_t': 64, 'unsigned char': 8}
@@ -309,7 +310,7 @@ def gen_c04() -> typing.Tuple[bool, str]:
              '(* structural facts of the (de)serialization templates read by tools/translators/gen_c04.py *)\n']
     for k in ORDER:
         lines.append('Definition tpl_%s : bool := %s.\n' % (k, 'true' if f[k] else 'false'))
-    lines.append('\nDefinition tpl_order_facts : bool :=\n  %s.\n' % ' && '.join('tpl_' + k for k in ORDER if (not k.startswith(('cpp_', 'union_')) or k == 'cpp_ser_stores_checked') and k not in STATE))
+    lines.append('\nDefinition tpl_order_facts : bool :=\n  %s.\n' % ' && '.join('tpl_' + k for k in ORDER if (not k.startswith(('cpp_', 'union_')) or k in ('cpp_ser_stores_checked', 'cpp_getters_bytewise')) and k not in STATE))
     lines.append('\n(* bit widths of the named cursor / length types (lang/properties.yaml named_types) *)\n')
     for k, v in sorted(widths.items()):
         lines.append('Definition tpl_width_%s : nat := %d.\n' % (k, v))
